@@ -224,6 +224,16 @@ def judge(case, m):
             m.violation("proportion-validated", "float columns holding whole numbers: response is not (successes, trials)", case=case, key="prop:training")
     except Exception as e:
         m.violation("proportion-validated", f"whole numbers in float columns refused: {type(e).__name__}: {e}", case=case, key="prop:raises")
+    z1 = df.copy()
+    z1["succ"] = (np.arange(n) % 2).astype(float)
+    z1["tr"] = np.full(n, 7.0)
+    m.ev("proportion-validated")
+    try:
+        R = np.asarray(formulae.design_matrices("prop(succ, tr) ~ x", z1).response.design_matrix, dtype=float)
+        if not np.array_equal(R[:, 0], z1["succ"].to_numpy()) or not np.array_equal(R[:, 1], z1["tr"].to_numpy()):
+            m.violation("proportion-validated", f"0 / 1 successes out of 7 in float columns: response is {R[:3].tolist()}", case=case, key="prop:training")
+    except Exception as e:
+        m.violation("proportion-validated", f"0 / 1 successes in float columns refused: {type(e).__name__}: {e}", case=case, key="prop:raises")
     for dt in ("uint8", "uint32", "uint64"):
         ub = df.copy()
         ub["tr"] = ub["tr"].astype(dt)
